@@ -10,7 +10,19 @@ Lean model's evaluation (`c09.eval`: the emitted bodies as `Lang/MiniImp` progra
 specification (`c09.spec`: equivalence, "all fields equal", lexicographic strict total order consistent with ==,
 equals/hashCode/compareTo consistency, string form mentions every field) is evaluated on the implementation's results.
 A second, token-level stream compares which files / operators / methods are emitted at all with `c09.decision` over all
-combinations of deriving × field count × string_serialization × `+cpp`/`+java` base records.
+combinations of deriving × field count × string_serialization × `+cpp`/`+java` base records, and over every
+`generate.default_deriving` ∈ {[], [eq], [ord], [eq, ord]} × depth of the `@import` chain (0..2) × file level of the
+record × explicit deriving (the operations a record must have are `c09.deriving`: explicit ∪ default in every file of the
+import graph — `parse_eq_map`).
+Layout stream (behavioural): programs whose nested record types and outer records are spread over files reached through
+one and two levels of `@import`, under every `default_deriving`, relying on the default or repeating it; the deriving set
+the real front end gives each record is compared with `c09.deriving`, the imported records and the records that hold
+them are compiled and run like all others.
+Name stream (behavioural): the field names are the identifiers the *generated* record code itself uses as simple names
+(`body_identifiers`: parameters and locals of the emitted bodies — `other`, `obj`, `lhs`, `rhs`, `value`, `hashCode`,
+`tempResult` … —, roots of qualified names, called functions; read off the tokens of a probe generation, filtered by the
+real front end), each on a field of every kind (optional / primitive / string / enum / record / collection / binary) in
+records deriving eq and eq+ord: a field access that resolves to a local of the emitted method shows in the results.
 """
 from __future__ import annotations
 
@@ -50,6 +62,15 @@ THEOREMS = [
     "Pydjinni.Gen.cpp_tostring_args",
     "Pydjinni.Gen.cpp_declared_defined",
     "Pydjinni.Gen.java_members_consistent",
+    "Pydjinni.Gen.parse_eq_map",
+    "Pydjinni.Gen.parseAll_eq_map",
+    "Pydjinni.Gen.parse_default_eq",
+    "Pydjinni.Gen.parse_default_ord",
+    "Pydjinni.Gen.parse_explicit_kept",
+    "Pydjinni.Gen.parse_no_default",
+    "Pydjinni.Gen.default_eq_emitted",
+    "Pydjinni.Gen.default_ord_emitted",
+    "Pydjinni.Gen.withDefault_none",
 ]
 LEVEL = "proof"
 TRUSTED = (
@@ -299,9 +320,10 @@ ORD_TYPES = ["i8", "i16", "i32", "i64", "string", "col", "in_a", "in_d", "i64"]
 FIELD_NAMES = ["a", "b_two", "c", "dd", "e_x", "f", "g1"]
 
 
-def clauses_of(rec) -> list[str]:
-    """shape clauses of the known findings (rows 42, 56)"""
+def clauses_of(rec, inner=None) -> list[str]:
+    """shape clauses of the known findings (rows 42, 56); `inner`: the nested record types with their effective deriving"""
     cl = []
+    INNER = inner or globals()["INNER"]
     tys = [parse_type(t) for _, t in rec["fields"]]
     if rec["ord"] and any(t["k"] == "bool" for t in tys):
         cl.append("ord-bool")
@@ -353,13 +375,18 @@ def make_record(r: random.Random, idx: int, mode: str):
     return {"name": f"r{idx}", "fields": list(zip(FIELD_NAMES, types)), "eq": eq, "ord": ordd}
 
 
+def explicit_of(rec) -> list[bool]:
+    """what is written in `deriving(…)`; `rec["eq"]` / `rec["ord"]` are the *effective* operations (explicit ∪ generate.default_deriving)"""
+    return list(rec.get("explicit", [rec["eq"], rec["ord"]]))
+
+
 def render_record(rec, targets="") -> str:
-    der = [d for d in ("eq", "ord") if rec[d]]
+    der = [d for d, on in zip(("eq", "ord"), explicit_of(rec)) if on]
     body = " ".join(f"{n}: {t};" for n, t in rec["fields"])
     return f"{rec['name']} = record{targets} {{ {body} }}" + (f" deriving({', '.join(der)})" if der else "") + "\n"
 
 
-def draw_tuples(r: random.Random, rec, pools, m: int):
+def draw_tuples(r: random.Random, rec, pools, m: int, budget: int = 26):
     tys = [parse_type(t) for _, t in rec["fields"]]
     base = [draw(r, t, pools) for t in tys]
     tuples = [list(base), list(base)]          # two equal objects
@@ -372,7 +399,6 @@ def draw_tuples(r: random.Random, rec, pools, m: int):
     # every integer field: copies of the base tuple (all other fields equal, so the comparison is decided by this field alone)
     # with adjacent and far-apart values around the extremes and powers of two; nested records: the adjacent pool entries
     int_fields = [i for i, t in enumerate(tys) if t["k"] == "int"]
-    budget = 26
     for i in int_fields:
         vals = int_neighbourhoods(r, tys[i]["w"])
         if len(int_fields) > 2 and i != int_fields[0]:
@@ -451,6 +477,10 @@ def java_driver(cls, rec, info, names, pools, tuples, has_eq, has_cmp, has_str) 
     return "\n".join(L) + "\n"
 
 
+# short-lived JVMs: no optimising compiler threads, no parallel collector (same semantics, a third of the CPU time)
+JVM_FLAGS = ["-XX:TieredStopAtLevel=1", "-XX:+UseSerialGC", "-Xshare:auto"]
+
+
 def run_record(args):
     """compile and run the C++ and Java drivers of one record; returns the implementation's observation"""
     d, files, cpp_sources, cpp_drv, java_cls, java_drv, inc = args
@@ -458,8 +488,9 @@ def run_record(args):
     glue.write_tree(d, files)
     obs = {"cpp": None, "java": None, "notes": {}}
     if cpp_drv is not None:
-        (d / "drv.cpp").write_text(cpp_drv)
-        cmd = ["g++", "-std=c++20", "-O0", "-w", "-I", str(d / "cpp")] + inc + [str(d / "cpp" / s) for s in cpp_sources] + [str(d / "drv.cpp"), "-o", str(d / "drv")]
+        # one translation unit: the generated sources, then the driver (the standard headers are parsed once)
+        (d / "drv.cpp").write_text("".join(f'#include "{s}"\n' for s in cpp_sources) + cpp_drv)
+        cmd = ["g++", "-std=c++20", "-O0", "-w", "-I", str(d / "cpp")] + inc + [str(d / "drv.cpp"), "-o", str(d / "drv")]
         rc, out, err = glue.run_cmd(cmd, timeout=300)
         if rc != 0:
             obs["cpp"] = {"compiled": False}
@@ -471,12 +502,12 @@ def run_record(args):
         (d / "java" / f"{java_cls}.java").parent.mkdir(parents=True, exist_ok=True)
         (d / "java" / f"{java_cls}.java").write_text(java_drv)
         srcs = [str(p) for p in (d / "java").rglob("*.java")]
-        rc, out, err = glue.run_cmd(["javac", "-nowarn", "-Xlint:none", "-d", str(d / "classes")] + srcs, timeout=300)
+        rc, out, err = glue.run_cmd(["javac"] + ["-J" + f for f in JVM_FLAGS] + ["-proc:none", "-nowarn", "-Xlint:none", "-d", str(d / "classes")] + srcs, timeout=300)
         if rc != 0:
             obs["java"] = {"compiled": False}
             obs["notes"]["javac"] = err[-1200:]
         else:
-            rc, out, err = glue.run_cmd(["java", "-cp", str(d / "classes"), java_cls], timeout=120)
+            rc, out, err = glue.run_cmd(["java"] + JVM_FLAGS + ["-cp", str(d / "classes"), java_cls], timeout=120)
             obs["java"] = {"compiled": True, "rc": rc, "out": out}
             if rc != 0:
                 obs["notes"]["java"] = err[-800:]
@@ -563,19 +594,83 @@ def needs(rec):
     return out
 
 
-def behaviour_idl(records):
-    return PRELUDE + "".join(render_record(rec) for rec in records if rec["name"] not in INNER)
+# --- programs spread over imported files, `generate.default_deriving` (a *layout*)
+
+LEVEL_FILES = ["m.djinni", "sub/l1.djinni", "sub/deep/l2.djinni"]       # level k imports level k + 1
+IMPORT_LINES = ['@import "sub/l1.djinni"\n', '@import "deep/l2.djinni"\n']
+ENUM_DECL = PRELUDE.splitlines(keepends=True)[0]
+DEFAULTS = [[], ["eq"], ["ord"], ["eq", "ord"]]
 
 
-def behaviour_options(ctx, tag):
-    return glue.base_options(ctx.tmp / f"b_{tag}" / "out", java={"string_serialization": True})
+def inner_records(layout) -> list[dict]:
+    """the nested record types as declarations of this layout: explicit `deriving` as the layout writes it, file level"""
+    out = []
+    for nm, inner in INNER.items():
+        ex = (layout or {}).get("inner_explicit", {}).get(nm, [inner["eq"], inner["ord"]])
+        out.append({"name": nm, "fields": inner["fields"], "eq": ex[0], "ord": ex[1], "explicit": list(ex), "level": (layout or {}).get("levels", {}).get(nm, 0)})
+    return out
+
+
+def layout_decls(records, layout):
+    """[(level, record | None, text)] in declaration order"""
+    lv = layout.get("levels", {})
+    return ([(lv.get("col", 0), None, ENUM_DECL)] + [(r["level"], r, render_record(r)) for r in inner_records(layout)]
+            + [(rec.get("level", 0), rec, render_record(rec)) for rec in records if rec["name"] not in INNER])
+
+
+def behaviour_idl(records, layout=None):
+    """the program text — or, for a layout, {relative path: text} with the root `m.djinni`"""
+    if not layout:
+        return PRELUDE + "".join(render_record(rec) for rec in records if rec["name"] not in INNER)
+    decls = layout_decls(records, layout)
+    deepest = max(l for l, _, _ in decls)
+    return {LEVEL_FILES[L]: (IMPORT_LINES[L] if L < deepest else "") + "".join(t for l, _, t in decls if l == L) for L in range(deepest + 1)}
+
+
+def idl_text(idl) -> str:
+    return idl if isinstance(idl, str) else "".join(f"# ---- {pth}\n{text}" for pth, text in idl.items())
+
+
+def apply_layout(ctx, records, layout):
+    """The operations every record of the program derives: the model (`c09.deriving`: explicit ∪ default, in every file of
+    the import graph) sets `rec["eq"]` / `rec["ord"]`; returns the nested record types with their effective deriving."""
+    if not layout:
+        return INNER
+    decls = layout_decls(records, layout)
+    deepest = max(l for l, _, _ in decls)
+
+    def file_json(L):
+        return {"imports": [file_json(L + 1)] if L < deepest else [],
+                "records": [{"name": r["name"], "eq": explicit_of(r)[0], "ord": explicit_of(r)[1]} for l, r, _ in decls if l == L and r is not None]}
+    ans = ctx.driver.one({"op": "c09.deriving", "defaultEq": "eq" in layout["default"], "defaultOrd": "ord" in layout["default"], "file": file_json(0)})
+    if "error" in ans:
+        raise RuntimeError(str(ans))
+    eff = {e["name"]: e for e in ans["records"]}
+    for rec in records:
+        if rec["name"] in eff:
+            rec["explicit"] = explicit_of(rec)
+            rec["eq"], rec["ord"] = eff[rec["name"]]["eq"], eff[rec["name"]]["ord"]
+    return {nm: {"fields": INNER[nm]["fields"], "eq": eff[nm]["eq"], "ord": eff[nm]["ord"]} for nm in INNER}
+
+
+def behaviour_options(ctx, tag, layout=None, all_targets=True):
+    opts = glue.base_options(ctx.tmp / f"b_{tag}" / "out", java={"string_serialization": True},
+                             extra={"default_deriving": list(layout["default"])} if layout and layout.get("default") else None)
+    if not all_targets:
+        # only the two targets of this property are configured: the field names of the run need not be valid in Objective-C and C++/CLI
+        for k in ("objc", "objcpp", "cppcli"):
+            del opts["generate"][k]
+    return opts
 
 
 def behaviour(ctx, groups, fixed=None):
-    """groups: [(tag, records)] — generate all programs (process pool), compile and run all drivers (one pool), evaluate.
-    `fixed` = {"pools", "tuples"} replays recorded values instead of drawing them."""
-    results = glue.generate_many(ctx.tmp / "bgen", [(behaviour_idl(recs), behaviour_options(ctx, tag)) for tag, recs in groups], targets=("cpp", "java"))
-    prepared = [prepare(ctx, recs, tag, res, fixed) for (tag, recs), res in zip(groups, results)]
+    """groups: [(tag, records)] or [(tag, records, layout)] — generate all programs (process pool), compile and run all
+    drivers (one pool), evaluate. `fixed` = {"pools", "tuples"} replays recorded values instead of drawing them."""
+    groups = [(g[0], g[1], g[2] if len(g) > 2 else None) for g in groups]
+    inners = [apply_layout(ctx, recs, layout) for _, recs, layout in groups]
+    results = glue.generate_many(ctx.tmp / "bgen", [(behaviour_idl(recs, layout), behaviour_options(ctx, tag, layout, not (layout or {}).get("two_targets")))
+                                                    for tag, recs, layout in groups], targets=("cpp", "java"))
+    prepared = [prepare(ctx, recs, tag, res, fixed, layout, inner) for (tag, recs, layout), res, inner in zip(groups, results, inners)]
     jobs = [j for p in prepared for j in p[0]]
     observations = glue.parallel(run_record, jobs, workers=16)
     breaks, k = [], 0
@@ -585,14 +680,25 @@ def behaviour(ctx, groups, fixed=None):
     return breaks
 
 
-def prepare(ctx, records, tag, res, fixed=None):
+def prepare(ctx, records, tag, res, fixed=None, layout=None, inner_eff=None):
     r = random.Random(f"{ctx.seed}/c09/values/{tag}")
-    idl = behaviour_idl(records)
+    INNER = inner_eff or globals()["INNER"]      # the nested record types with the deriving they have in this program
+    idl = behaviour_idl(records, layout)
     pdir = ctx.tmp / f"b_{tag}"
     if res["parse"] != "ok":
-        raise RuntimeError(f"generated program rejected by the front end: {res}\n{idl}")
+        raise RuntimeError(f"generated program rejected by the front end: {res}\n{idl_text(idl)}")
     infos = {i["name"]: i for i in res["decls"]}
     names = type_names(res["decls"])
+    # what the real front end made of `deriving(…)`, the configuration and the file a record stands in
+    by_name = {**{nm: {"name": nm, **INNER[nm]} for nm in INNER}, **{rec["name"]: rec for rec in records}}
+    for nm, info in infos.items():
+        if info["kind"] == "record" and nm in by_name and "deriving" in info:
+            want = sorted(d for d in ("eq", "ord") if by_name[nm][d])
+            ctx.stat("deriving_sets_compared")
+            if sorted(x for x in info["deriving"] if x in ("eq", "ord")) != want:
+                report(ctx, "deriving:not-explicit-united-with-default", f"record {nm} (file {info.get('file')}) derives {info['deriving']}, "
+                       f"its declaration and generate.default_deriving = {(layout or {}).get('default', [])} give {want}",
+                       {"input": {"records": [by_name[nm]] if nm not in INNER else [], "layout": layout}, "idl": idl_text(idl), "record": nm, "observed": info["deriving"], "expected": want})
     # value pools of the nested record types and their atoms (rank / hash / string form from the model itself)
     pools = {}
     pr = random.Random(f"{ctx.seed}/c09/pools/{tag}")
@@ -629,17 +735,18 @@ def prepare(ctx, records, tag, res, fixed=None):
         atoms[nm] = [[rank[i], ans["hash"][i] if inner["eq"] else 0, ans["str"][i]] for i in range(m)]
     # all records of the program, the nested ones included (they are records deriving eq/ord themselves)
     todo = [{"name": nm, "fields": inner["fields"], "eq": inner["eq"], "ord": inner["ord"]} for nm, inner in INNER.items() if inner["eq"] or inner["ord"]]
-    todo = (todo if tag.endswith("0") else []) + [rec for rec in records if rec["name"] not in INNER]
+    todo = (todo if (tag.endswith("0") and not layout) or (layout or {}).get("run_inner") else []) + [rec for rec in records if rec["name"] not in INNER]
     if not todo:     # replay of one of the nested record types
         todo = [rec for rec in records]
     atoms["_pools"] = pools
+    atoms["_inner"], atoms["_layout"], atoms["_idl"] = INNER, layout, idl_text(idl)
     jobs, metas = [], []
     inc = glue.cpp_support_includes()
     for k, rec in enumerate(todo):
         info = infos[rec["name"]]
         n = len(rec["fields"])
         dec = ctx.driver.one({"op": "c09.decision", "eq": rec["eq"], "ord": rec["ord"], "nFields": n, "cppStringSer": False, "javaStringSer": True})
-        tuples = fixed["tuples"] if fixed else draw_tuples(r, rec, pools, ctx.n(7, 9))
+        tuples = fixed["tuples"] if fixed else draw_tuples(r, rec, pools, (layout or {}).get("tuples", ctx.n(7, 9)), budget=(layout or {}).get("int_budget", 26))
         files = {}
         for dn in dict.fromkeys(["col"] + needs(rec) + [rec["name"]]):
             for sub in ("cpp", "java"):
@@ -656,6 +763,7 @@ def prepare(ctx, records, tag, res, fixed=None):
 
 def evaluate(ctx, metas, observations, atoms):
     breaks = []
+    INNER, layout = atoms.get("_inner") or globals()["INNER"], atoms.get("_layout")
     ereqs, sreqs = [], []
     for (rec, info, dec, tuples), obs in zip(metas, observations):
         tys = [parse_type(t) for _, t in rec["fields"]]
@@ -669,14 +777,17 @@ def evaluate(ctx, metas, observations, atoms):
         if "error" in model or "error" in spec:
             raise RuntimeError(f"driver error {model} {spec}")
         impl = sreq["impl"]
-        cl = clauses_of(rec)
+        cl = clauses_of(rec, INNER) + (name_clauses(rec, info) if (layout or {}).get("names") else [])
         shape = (rec["eq"], rec["ord"], tuple(t for _, t in rec["fields"]))
+        if layout:
+            shape += layout_key(rec, layout)
+            ctx.stat("layout_default_" + ("+".join(layout["default"]) or "none"))
         ctx.count(key=shape, nontrivial=True, sample={"idl": render_record(rec), "values": tuples[:2]}, n=len(tuples) ** 2)
         for _, t in rec["fields"]:
             ctx.stat("field_" + t)
         ctx.stat("deriving_" + "+".join(d for d in ("eq", "ord") if rec[d]))
-        replay = {"input": {"records": [rec], "tuples": tuples, "pools": atoms["_pools"]}, "idl": PRELUDE + render_record(rec), "clauses": cl,
-                  "notes": obs["notes"]}
+        replay = {"input": {"records": [rec], "tuples": tuples, "pools": atoms["_pools"], **({"layout": layout} if layout else {})},
+                  "idl": atoms["_idl"] if layout else PRELUDE + render_record(rec), "clauses": cl, "notes": obs["notes"]}
         # --- judges' verdict on the generated code itself
         fails = []
         for lang, tool in (("cpp", "g++"), ("java", "javac")):
@@ -734,6 +845,10 @@ def failure_key(f, clauses):
         return "eq-over-non-eq-record"
     if t == "java" and "float-field" in clauses and "equal objects have different hash codes" in why:
         return "java:float-signed-zero-hash"
+    if t == "cpp" and "cpp-field-is-emitted-type-name" in clauses and "does not compile" in why:
+        return "cpp:field-named-like-emitted-type"
+    if t == "java" and "java-field-obscures-qualified-name" in clauses and "does not compile" in why:
+        return "java:field-obscures-qualified-name"
     return f"{t}:" + re.sub(r"[^a-z=<>!]+", "-", why.split("(")[0].lower()).strip("-")
 
 
@@ -775,8 +890,9 @@ def observe_decisions(info):
 
 
 def decisions(ctx, only=None):
-    """`only` = {"rec", "targets", "css", "jss"}: just that combination (replay)"""
+    """`only` = {"rec", "targets", "css", "jss"(, "layout")}: just that combination (replay)"""
     breaks = []
+    only_layout = (only or {}).get("layout")
     combos = list(itertools.product([False, True], [False, True], [0, 1, 3], [False, True], [False, True], ["", " +cpp", " +java"]))
     progs = []
     for css, jss in itertools.product([False, True], repeat=2):
@@ -784,29 +900,61 @@ def decisions(ctx, only=None):
         for k, (eq, ordd, n, css2, jss2, tg) in enumerate(combos):
             if css2 != css or jss2 != jss:
                 continue
-            if only and (only["rec"]["name"] != f"d{k}" or only["css"] != css or only["jss"] != jss):
+            if only and (only_layout or only["rec"]["name"] != f"d{k}" or only["css"] != css or only["jss"] != jss):
                 continue
             recs.append(({"name": f"d{k}", "fields": list(zip(FIELD_NAMES, ["i32", "string", "i16"][:n])), "eq": eq, "ord": ordd}, tg))
         # split so that the pool has something to do
         for half in (recs[::2], recs[1::2]):
             if half:
-                progs.append((css, jss, half))
+                progs.append((css, jss, half, None))
+    # every `generate.default_deriving` x depth of the import graph x file level of the record x explicit deriving
+    k = 0
+    for default in DEFAULTS:
+        for depth in (0, 1, 2):
+            recs = []
+            for level in range(depth + 1):
+                for ex in itertools.product([False, True], repeat=2):
+                    k += 1
+                    if only and (not only_layout or only["rec"]["name"] != f"y{k}"):
+                        continue
+                    recs.append(({"name": f"y{k}", "fields": list(zip(FIELD_NAMES, ["i32", "string"])), "eq": ex[0], "ord": ex[1], "explicit": list(ex), "level": level}, ""))
+            if recs:
+                progs.append((False, True, recs, {"default": default, "depth": depth}))
     jobs = []
-    for pi, (css, jss, recs) in enumerate(progs):
+    for pi, (css, jss, recs, dl) in enumerate(progs):
         idl = "".join(render_record(rec, tg) for rec, tg in recs)
-        opts = glue.base_options(ctx.tmp / f"dec{pi}" / "out", cpp={"string_serialization": css}, java={"string_serialization": jss})
+        extra = None
+        if dl:
+            idl = {LEVEL_FILES[L]: (IMPORT_LINES[L] if L < dl["depth"] else "") + "".join(render_record(rec) for rec, _ in recs if rec["level"] == L) for L in range(dl["depth"] + 1)}
+            extra = {"default_deriving": list(dl["default"])} if dl["default"] else None
+
+            def file_json(L, recs=recs, dl=dl):
+                return {"imports": [file_json(L + 1)] if L < dl["depth"] else [],
+                        "records": [{"name": rec["name"], "eq": rec["explicit"][0], "ord": rec["explicit"][1]} for rec, _ in recs if rec["level"] == L]}
+            eff = {e["name"]: e for e in ctx.driver.one({"op": "c09.deriving", "defaultEq": "eq" in dl["default"], "defaultOrd": "ord" in dl["default"], "file": file_json(0)})["records"]}
+            for rec, _ in recs:     # the operations the record is expected to have
+                rec["eq"], rec["ord"] = eff[rec["name"]]["eq"], eff[rec["name"]]["ord"]
+        opts = glue.base_options(ctx.tmp / f"dec{pi}" / "out", cpp={"string_serialization": css}, java={"string_serialization": jss}, extra=extra)
         jobs.append((idl, opts))
-    for (css, jss, recs), res in zip(progs, glue.generate_many(ctx.tmp / "decgen", jobs, targets=("cpp", "java"))):
+    for (css, jss, recs, dl), res in zip(progs, glue.generate_many(ctx.tmp / "decgen", jobs, targets=("cpp", "java"))):
         if res["parse"] != "ok":
             raise RuntimeError(f"decision program rejected: {res}")
-        reqs = [{"op": "c09.decision", "eq": rec["eq"], "ord": rec["ord"], "nFields": len(rec["fields"]), "cppStringSer": css,
+        by_name = {d["name"]: d for d in res["decls"]}
+        infos = [by_name[rec["name"]] for rec, _ in recs]
+        dflt = {"defaultEq": "eq" in dl["default"], "defaultOrd": "ord" in dl["default"]} if dl else {}
+        reqs = [{"op": "c09.decision", "eq": explicit_of(rec)[0], "ord": explicit_of(rec)[1], **dflt, "nFields": len(rec["fields"]), "cppStringSer": css,
                  "javaStringSer": jss, "cppBase": tg == " +cpp"} for rec, tg in recs]
         freqs = [{"op": "c09.eval", "typename": info.get("type_names", {}).get("cpp_typename", "?"), "values": [],
-                  "fields": fields_json(rec, info) if info.get("names") else []} for (rec, tg), info in zip(recs, res["decls"])]
+                  "fields": fields_json(rec, info) if info.get("names") else []} for (rec, tg), info in zip(recs, infos)]
         fmts = ctx.driver.batch(freqs)
-        for (rec, tg), info, model, fm in zip(recs, res["decls"], ctx.driver.batch(reqs), fmts):
-            ctx.count(key=("decision", rec["eq"], rec["ord"], len(rec["fields"]), css, jss, tg), nontrivial=True,
-                      sample={"idl": render_record(rec, tg), "cpp.string_serialization": css})
+        for (rec, tg), info, model, fm in zip(recs, infos, ctx.driver.batch(reqs), fmts):
+            if dl:
+                ctx.count(key=("decision-layout", tuple(dl["default"]), dl["depth"], rec["level"], tuple(rec["explicit"])), nontrivial=True,
+                          sample={"idl": render_record(rec, tg), "default_deriving": dl["default"], "file": LEVEL_FILES[rec["level"]]})
+                ctx.stat("decision_layout_cases")
+            else:
+                ctx.count(key=("decision", rec["eq"], rec["ord"], len(rec["fields"]), css, jss, tg), nontrivial=True,
+                          sample={"idl": render_record(rec, tg), "cpp.string_serialization": css})
             ctx.stat("decision_cases")
             if info["errors"]:
                 ctx.report("decision:generation-failed", f"record generation failed: {info['errors']}", {"idl": render_record(rec, tg), "errors": info["errors"]})
@@ -824,10 +972,10 @@ def decisions(ctx, only=None):
                            or f"::pydjinni::format(value.{a})" not in obs["cppFormat"]["args"]]
                 if missing:
                     report(ctx, "cpp:to_string-misses-field", "the C++ string form does not mention every field",
-                           {"input": {"decision": {"rec": rec, "targets": tg, "css": css, "jss": jss}}, "idl": render_record(rec, tg), "missing": missing, "observed": obs["cppFormat"]})
+                           {"input": {"decision": {"rec": rec, "targets": tg, "css": css, "jss": jss, **({"layout": dl} if dl else {})}}, "idl": render_record(rec, tg), "missing": missing, "observed": obs["cppFormat"]})
             if diff:
                 breaks.append({"why": "emitted operators / files differ from the model: " + ",".join(diff), "idl": render_record(rec, tg),
-                               "cpp.string_serialization": css, "java.string_serialization": jss, "diff": diff})
+                               "cpp.string_serialization": css, "java.string_serialization": jss, "diff": diff, **({"layout": dl, "file": LEVEL_FILES[rec["level"]]} if dl else {})})
             # specification on the observation: what is declared is defined; members come in consistent groups; derived operations exist
             n = len(rec["fields"])
             probs = []
@@ -846,8 +994,9 @@ def decisions(ctx, only=None):
             if n > 0 and rec["ord"] and not (obs["cppDeclaresOrd"] and obs["javaHasCompareTo"]):
                 probs.append(("ord-not-emitted", "deriving(ord) but no </compareTo emitted"))
             for key, what in probs:
-                report(ctx, key, what, {"input": {"decision": {"rec": rec, "targets": tg, "css": css, "jss": jss}}, "idl": render_record(rec, tg),
-                                       "cpp.string_serialization": css, "java.string_serialization": jss, "observed": obs})
+                report(ctx, key, what + (f" (generate.default_deriving = {dl['default']}, record in {LEVEL_FILES[rec['level']]} of an import chain of depth {dl['depth']})" if dl else ""),
+                       {"input": {"decision": {"rec": rec, "targets": tg, "css": css, "jss": jss, **({"layout": dl} if dl else {})}}, "idl": render_record(rec, tg),
+                        "cpp.string_serialization": css, "java.string_serialization": jss, "observed": obs, **({"layout": dl, "file": LEVEL_FILES[rec["level"]]} if dl else {})})
     return breaks
 
 
@@ -868,23 +1017,225 @@ def build_records(ctx):
     return [recs[i:i + per] for i in range(0, len(recs), per)]
 
 
+def layout_key(rec, layout):
+    k = (tuple(layout["default"]), rec.get("level", layout.get("levels", {}).get(rec["name"], 0)), max([0] + list(layout.get("levels", {}).values())), tuple(explicit_of(rec)))
+    return k + (tuple(n for n, _ in rec["fields"]),) if layout.get("names") else k
+
+
+MODES_FOR_DEFAULT = {(): ["eq", "eqord", "ord"], ("eq",): ["eq", "eqord"], ("ord",): ["ord", "eqord"], ("eq", "ord"): ["eqord"]}
+
+
+def build_layout_groups(ctx):
+    """Programs whose records are spread over imported files (one and two levels of `@import`) under every value of
+    `generate.default_deriving`; the records either rely on the default or repeat it in their `deriving(…)`.
+    Every program: the nested record types (imported; run themselves) and outer records in the root and in imported files
+    that hold them."""
+    r = random.Random(f"{ctx.seed}/c09/layouts")
+    combos = [(d, depth, repeat) for d in DEFAULTS for depth in (1, 2) for repeat in (False, True)]
+    # quick: every non-empty default once without repetition (both depths occur), plus two of the remaining combinations in rotation
+    first = [(["eq"], 1, False), (["eq", "ord"], 2, False), (["ord"], 2, False)]
+    rest = [c for c in combos if c not in first]
+    r.shuffle(rest)
+    chosen = first + rest[: ctx.n(1, len(rest))]
+    groups = []
+    for gi, (default, depth, repeat) in enumerate(chosen):
+        levels = {nm: r.randint(1, depth) for nm in INNER}
+        levels[r.choice(list(INNER))] = depth
+        levels["col"] = r.randint(0, depth)
+        inner_explicit = {}
+        for nm, inner in INNER.items():
+            ex = [inner["eq"], inner["ord"]]
+            if not repeat:      # what the configuration supplies is not written again
+                ex = [ex[0] and "eq" not in default, ex[1] and "ord" not in default]
+            inner_explicit[nm] = ex
+        # quick: the imported nested records are run themselves in the first two programs (and in the corpus program); everywhere they are held by the outer records
+        layout = {"default": default, "levels": levels, "inner_explicit": inner_explicit, "run_inner": gi < ctx.n(2, len(chosen)), "int_budget": 8}
+        recs = []
+        for k in range(ctx.n(2, 4)):
+            mode = r.choice(MODES_FOR_DEFAULT[tuple(default)])
+            rec = make_record(r, k, mode)
+            rec["name"] = f"w{gi}_{k}"
+            # at least one field of a nested (imported) record type
+            types = [t for _, t in rec["fields"]]
+            pool = [t for t in (ORD_TYPES if rec["ord"] else EQ_TYPES) if parse_type(t)["k"] == "record" or "in_" in t]
+            types[r.randrange(len(types))] = r.choice(pool)
+            rec["fields"] = list(zip(FIELD_NAMES, types))
+            want = [rec["eq"], rec["ord"]]
+            rec["explicit"] = want if repeat else [want[0] and "eq" not in default, want[1] and "ord" not in default]
+            # a declaration sees the files its own file imports: it stands at most as deep as the types it holds
+            deps = needs(rec) + (["col"] if any("col" in t for t in types) else [])
+            rec["level"] = min([r.randint(0, depth)] + [levels[d] for d in deps])
+            recs.append(rec)
+        groups.append((f"L{gi}", recs, layout))
+    return groups
+
+
+# --- field names taken from the generated code itself
+
+NAME_PROBE = PRELUDE + """zq_all = record { zq0: i32; zq1: string; zq2: i32?; zq3: col; zq4: in_a; zq5: binary; zq6: list<i32>; zq7: i64; zq8: bool; zq9: string?; zq10: in_a?; } deriving(eq)
+zq_ord = record { zq0: i32; zq1: string; zq3: col; zq4: in_a; zq7: i64; } deriving(eq, ord)
+"""
+NAME_EQ_KINDS = ["i32?", "string", "i32", "i64", "col", "in_a?", "binary", "list<string>", "in_a", "string?", "bool", "col?"]
+NAME_ORD_KINDS = ["string", "i32", "in_a", "col", "i64"]
+
+
+def snake(tok: str) -> str:
+    return re.sub(r"(?<=[a-z0-9])([A-Z])", lambda m: "_" + m.group(1).lower(), tok).lower()
+
+
+def simple_name_uses(tl):
+    """indices of the identifier tokens that are simple names (not a member selected after `.` / `::` / `->`)"""
+    return [i for i, (k, t) in enumerate(tl) if k == "id" and (i == 0 or tl[i - 1][1] not in (".", "::", "->"))]
+
+
+def type_position_names(tl) -> set:
+    """simple names used as a type: directly followed by a declarator name or closing a template argument (`int32_t x`, `optional<int32_t>`)"""
+    return {tl[i][1] for i in simple_name_uses(tl) if i + 1 < len(tl) and (tl[i + 1][1] in (">", ">>") or
+            (tl[i + 1][0] == "id" and i + 2 < len(tl) and tl[i + 2][1] in (";", ",", ")", "=", "(", "[", "{")))}
+
+
+def java_expression_roots(tl) -> set:
+    """first components of qualified class names that Java code mentions in an expression (`java.util.Arrays.equals(…)`:
+    root . name … . Capitalised . method `(`): a variable in scope with that name obscures the package (JLS 6.4.2)"""
+    out = set()
+    for i in simple_name_uses(tl):
+        j, seen_class = i, False
+        while j + 2 < len(tl) and tl[j + 1][1] == "." and tl[j + 2][0] == "id":
+            j += 2
+            if tl[j][1][0].isupper():
+                seen_class = True
+            elif seen_class:
+                if j + 1 < len(tl) and tl[j + 1][1] == "(" and not tl[i][1][0].isupper():
+                    out.add(tl[i][1])
+                break
+    return out
+
+
+def name_clauses(rec, info) -> list[str]:
+    """shape clauses of the known findings about field names, read off the record's own generated code"""
+    cl = []
+    hdr = [glue.tokenize(t) for pth, t in info["files"].get("cpp", {}).items() if not pth.endswith(".cpp") and "pydjinni/" not in pth]
+    if set(info["names"]["cpp"]) & set().union(*[type_position_names(tl) for tl in hdr] or [set()]):
+        cl.append("cpp-field-is-emitted-type-name")
+    jav = [glue.tokenize(t, lang="java") for pth, t in info["files"].get("java", {}).items() if "pydjinni/" not in pth]
+    if set(info["names"]["java"]) & set().union(*[java_expression_roots(tl) for tl in jav] or [set()]):
+        cl.append("java-field-obscures-qualified-name")
+    return cl
+
+
+def body_identifiers(ctx) -> dict:
+    """{"names": {IDL field name: [tokens it was derived from]}, "hazard": [names of the two known-finding classes]} — every identifier that the *generated* record code (the C++ header and
+    source, the Java class; all operations, both string serialisations on) uses as a simple name — parameters and locals
+    of the emitted bodies (`other`, `obj`, `lhs`, `rhs`, `value`, `hashCode`, `tempResult`, …), roots of the qualified names
+    they mention (`java`, `std`, the package), called functions — turned into the IDL spelling whose target name is that
+    identifier, and accepted as a field name by the real front end (reserved words of C++ / Java are refused there).
+    Member names after `.` / `::` / `->` belong to another scope and are left out, so are the probe's own names."""
+    opts = glue.base_options(ctx.tmp / "nprobe" / "out", cpp={"string_serialization": True}, java={"string_serialization": True})
+    res = glue.generate_many(ctx.tmp / "nprobe_gen", [(NAME_PROBE, opts)], targets=("cpp", "java"))[0]
+    if res["parse"] != "ok":
+        raise RuntimeError(f"name probe rejected: {res}")
+    own, toks, special = set(), {}, set()
+    for info in res["decls"]:
+        own |= {info["name"]} | set(info.get("type_names", {}).values())
+        for lst in info.get("names", {}).values():
+            own |= set(lst)
+    for info in res["decls"]:
+        if not info["name"].startswith("zq_"):
+            continue
+        for sub, lang in (("cpp", "c"), ("java", "java")):
+            for pth, text in info["files"].get(sub, {}).items():
+                if "pydjinni/" in pth:          # support files, not record code
+                    continue
+                tl = glue.tokenize(text, lang=lang)
+                special |= {snake(t) for t in type_position_names(tl) | (java_expression_roots(tl) if lang == "java" else set())}
+                for i in simple_name_uses(tl):
+                    t = tl[i][1]
+                    if t not in own and not t[0].isupper() and not re.fullmatch(r"get[A-Z]\w*|zq\w*", t):
+                        toks.setdefault(snake(t), set()).add(t)
+    cands = sorted(toks)
+    o2 = behaviour_options(ctx, "nprobe2", None, all_targets=False)
+    probes = glue.generate_many(ctx.tmp / "nprobe2_gen", [(f"p = record {{ {n}: i32; }} deriving(eq)\n", o2) for n in cands], targets=())
+    out = {}
+    for n, pr in zip(cands, probes):
+        ok = pr["parse"] == "ok" and pr["decls"] and not pr["decls"][0]["errors"] and pr["decls"][0]["names"].get("java")
+        ctx.stat("name_candidates_" + ("accepted" if ok else "refused_by_front_end"))
+        if ok:
+            out[n] = sorted(toks[n])
+    # names the generated code uses as a *type* (`int32_t`) or as the root of a qualified class name in an expression (`java`):
+    # the two known findings about field names; they get records of their own
+    return {"names": out, "hazard": sorted(n for n in out if n in special)}
+
+
+def build_name_groups(ctx, found: dict):
+    """Every candidate name on a field of every kind (optional / primitive / string / enum / record / collection / binary):
+    records deriving eq over all kinds, records deriving eq and ord over the ord-eligible kinds; consecutive
+    (name, kind) pairs so that the fields of one record have different names. The names of the known-finding classes
+    stand alone among neutral names (quick: on the first kind, thorough: on every kind)."""
+    r = random.Random(f"{ctx.seed}/c09/names")
+    names = [n for n in sorted(found["names"]) if n not in found["hazard"]]
+    r.shuffle(names)
+    if len(names) < 2:
+        return []
+    groups, recs = [], []
+    for h in found["hazard"]:
+        kinds = NAME_EQ_KINDS[:8]
+        for shift in range(ctx.n(1, len(kinds))):
+            fields = [(h if j == 0 else FIELD_NAMES[j - 1], kinds[(shift + j) % len(kinds)]) for j in range(len(kinds))]
+            recs.append({"name": f"nm{len(recs)}", "fields": fields, "eq": True, "ord": False})
+    for mode, kinds, per in (("eq", NAME_EQ_KINDS, 8), ("eqord", NAME_ORD_KINDS, 6)):
+        kinds = kinds[: ctx.n(8 if mode == "eq" else 3, len(kinds))]       # quick: the first kinds (every branch of the per-field Java expressions)
+        pairs = [(names[i], kinds[(i + shift) % len(kinds)]) for shift in range(len(kinds)) for i in range(len(names))]
+        per = min(per, len(names))
+        for c in range(0, len(pairs), per):
+            chunk = pairs[c:c + per]
+            if len({n for n, _ in chunk}) < len(chunk):          # the tail wrapped around: keep the first occurrence of a name
+                seen, ch2 = set(), []
+                for n, t in chunk:
+                    if n not in seen:
+                        seen.add(n)
+                        ch2.append((n, t))
+                chunk = ch2
+            recs.append({"name": f"nm{len(recs)}", "fields": chunk, "eq": True, "ord": mode == "eqord"})
+    per_group = 12
+    for gi in range(0, len(recs), per_group):
+        groups.append((f"N{gi // per_group}", recs[gi:gi + per_group],
+                       {"default": [], "levels": {}, "two_targets": True, "names": True, "int_budget": 4, "tuples": 5}))
+    return groups
+
+
 def corpus_records():
     f = Path(__file__).resolve().parent.parent.parent / "corpus" / "c09.json"
     if not f.exists():
         return []
-    return [{"name": e["name"], "fields": [tuple(x) for x in e["fields"]], "eq": e["eq"], "ord": e["ord"]} for e in json.loads(f.read_text())]
+    return [{"name": e["name"], "fields": [tuple(x) for x in e["fields"]], "eq": e["eq"], "ord": e["ord"]} for e in json.loads(f.read_text()) if "layout" not in e]
+
+
+def corpus_layout_groups():
+    """corpus entries of the layout class: {"layout": {...}, "records": [{name, fields, eq, ord, explicit, level}]}"""
+    f = Path(__file__).resolve().parent.parent.parent / "corpus" / "c09.json"
+    if not f.exists():
+        return []
+    out = []
+    for k, e in enumerate(x for x in json.loads(f.read_text()) if "layout" in x):
+        recs = [{**r, "fields": [tuple(x) for x in r["fields"]]} for r in e["records"]]
+        out.append((f"C{k}", recs, e["layout"]))
+    return out
 
 
 def run(ctx):
     ctx.coverage["rule"] = ("records with 1..5 fields over integers, bool, string, enum, nested records, optionals, lists, binary; deriving eq / ord / both; "
                             "7 (9) random value tuples per record plus, per integer field, copies of the base tuple with adjacent / far-apart values at the extremes and at powers of two (i64: beyond 2^53), all ordered pairs; distinct = distinct (deriving, field type list); plus all 144 combinations of "
-                            "deriving x field count x string_serialization x base-record flags for the emission decisions; evaluations = comparisons run")
+                            "deriving x field count x string_serialization x base-record flags for the emission decisions, plus default_deriving (4) x import depth (0..2) x file level x explicit deriving (96); "
+                            "layout stream: every non-empty default_deriving over one / two @import levels (distinct adds default, file level, depth, explicit deriving); name stream: every simple name of the generated record code "
+                            "x field kind (distinct adds the field names); evaluations = comparisons run")
     ctx.assumptions += [
         "string values are ASCII (C++ compares bytes, Java UTF-16 units); floating-point fields are not drawn (NaN / signed zero are outside a linear order)",
         "Java equals is evaluated on objects of the same class (the instanceof prologue is not modelled)",
         "records without fields get no operators in any target (the templates' `and type_def.fields` guards): nothing to run",
         "nested record values enter the outer record's model as atoms whose order, hash and string form come from the model's evaluation of the nested record",
         "C++ to_string needs <format> (absent in g++ 12): compared as emitted / not emitted only",
+        "name stream: only the C++ / Java / JNI targets are configured (a name reserved in Objective-C or C++/CLI is not refused); field identifier styles are the defaults (Java camelCase, C++ snake_case)",
+        "files of a layout form a chain (root imports sub/l1.djinni imports sub/deep/l2.djinni); a record stands at most as deep as the types it holds",
     ]
     breaks = []
     import time
@@ -896,7 +1247,11 @@ def run(ctx):
     if corp:
         groups = [corp] + groups
     t0 = time.time()
-    breaks += behaviour(ctx, [(f"g{gi}", recs) for gi, recs in enumerate(groups)])
+    names = body_identifiers(ctx)
+    ctx.stats["body_identifier_names"] = names
+    ctx.stats["t_names_probe_s"] = round(time.time() - t0, 1)
+    t0 = time.time()
+    breaks += behaviour(ctx, [(f"g{gi}", recs) for gi, recs in enumerate(groups)] + corpus_layout_groups() + build_layout_groups(ctx) + build_name_groups(ctx, names))
     ctx.stats["t_behaviour_s"] = round(time.time() - t0, 1)
     ctx.stats["correspondence_breaks"] = len(breaks)
     if breaks and not ctx.violations:
@@ -913,7 +1268,10 @@ def replay(ctx, body):
         breaks = decisions(ctx, only=inp["decision"])
     else:
         recs = [{"name": e["name"], "fields": [tuple(x) for x in e["fields"]], "eq": e["eq"], "ord": e["ord"]} for e in inp["records"]]
+        for rec, e in zip(recs, inp["records"]):
+            rec.update({k: e[k] for k in ("explicit", "level") if k in e})
         fixed = {"pools": inp["pools"], "tuples": inp["tuples"]} if "pools" in inp else None
-        breaks = behaviour(ctx, [("replay1", recs)], fixed)
+        layout = {**inp["layout"], "run_inner": False} if inp.get("layout") else None      # the recorded tuples belong to the recorded record only
+        breaks = behaviour(ctx, [("replay1", recs, layout)], fixed)
     print(json.dumps({"breaks": breaks[:2], "violations": ctx.violations[:5]}, indent=1)[:3000])
     return len(ctx.violations) + sum(ctx.known_hits.values()) == before and not breaks
